@@ -88,6 +88,9 @@ pub struct Scn {
     /// access-list reloads: (at ms, new list, file has a malformed line = the reload must fail)
     #[serde(default)]
     pub reloads: Vec<(u32, Vec<u8>, bool)>,
+    /// clients do not wait for the tracker to come up: they connect the instant a listener exists
+    #[serde(default)]
+    pub early: bool,
     /// expiry probe: (max_peer_age, torrent_cleaning_interval) in seconds; two scripted connections work torrent 7 and
     /// its scrape counts are judged against deadline windows (the final quiescent scrape is not judged then)
     #[serde(default)]
@@ -231,7 +234,19 @@ fn t_of(v: &Value) -> u8 {
 type Ws = tungstenite::WebSocket<ClientStream>;
 
 fn open_ws(addr: SocketAddr, pick: Pick) -> Result<Ws, String> {
-    let mut s = tcp::connect(addr, pick).ok_or("no listener for this address family")?;
+    open_ws2(addr, pick, false)
+}
+
+/// `early`: the tracker may still be starting - retry (as a client's SYN would be) until a listener exists
+fn open_ws2(addr: SocketAddr, pick: Pick, early: bool) -> Result<Ws, String> {
+    let mut conn = tcp::connect(addr, pick);
+    let mut tries = 0;
+    while conn.is_none() && early && engine::now() == 0 && tries < 400 {
+        engine::yield_now();
+        tries += 1;
+        conn = tcp::connect(addr, pick);
+    }
+    let mut s = conn.ok_or("no listener for this address family")?;
     s.read_timeout_ns = 5_000_000_000;
     let req = "ws://tracker.example:3000/";
     match tungstenite::client(req, s) {
@@ -332,7 +347,7 @@ fn client_main(idx: usize, scn: Arc<Scn>, col: Arc<Mutex<Collected>>) {
     let addr = SocketAddr::new(src_ip(c.v6, if c.v6 { c.ac % 2 } else { 0 }, c.h), 4000 + idx as u16);
     let pick = if c.pick == 0 { Pick::Hash } else { Pick::Index(c.pick as usize - 1) };
     let mut log: Vec<Ev> = Vec::new();
-    let mut ws = match open_ws(addr, pick) {
+    let mut ws = match open_ws2(addr, pick, scn.early && c.start_ms == 0) {
         Ok(w) => w,
         Err(e) => {
             log.push(Ev::HandshakeFailed { why: e });
@@ -557,6 +572,10 @@ fn sim_root(scn: Arc<Scn>, col: Arc<Mutex<Collected>>) {
             PF::SpawnFail { thread } => plan.fail_spawn.push(thread.clone()),
         }
     }
+    if scn.early {
+        // a slow start (think of a large access-list file): the thread running run() stalls for 3 ms at one of its first seam calls
+        plan.stall_at.push(("tracker-run".into(), 1 + scn.sched_seed % 10, 3_000_000));
+    }
     fault::set_plan(plan);
     col.lock().unwrap().logs = vec![Vec::new(); scn.conns.len()];
     let col2 = col.clone();
@@ -565,7 +584,9 @@ fn sim_root(scn: Arc<Scn>, col: Arc<Mutex<Collected>>) {
         let t = engine::now();
         col2.lock().unwrap().run_returned = Some((t, r.map_err(|e| format!("{:#}", e))));
     });
-    thread::sleep(Duration::from_millis(5));
+    if !scn.early {
+        thread::sleep(Duration::from_millis(5));
+    }
     let mut hs = Vec::new();
     for i in 0..scn.conns.len() {
         let (s, c) = (scn.clone(), col.clone());
@@ -771,7 +792,7 @@ impl Harness for WsSys {
         if !reloads.is_empty() {
             // on torrents whose permission changes with a reload connections only use their own peer id
             // (whether the tracker recorded an earlier announce is then irrelevant to what it must answer)
-            let tmp = Scn { socket_workers, swarm_workers, layout, max_offers: 0, max_scrape_torrents: 1, max_peer_age: 0, max_offer_age: 0, cleaning_interval: 0, conn_cleaning_interval: 0, max_connection_idle: 0, access_mode, access_list: access_list.clone(), sched_strategy: 0, sched_seed: 0, entropy_seed: 0, yield_permille: 0, duration_ms, conns: vec![], faults: vec![], reloads: reloads.clone(), probe: None, drop_priv: false };
+            let tmp = Scn { socket_workers, swarm_workers, layout, max_offers: 0, max_scrape_torrents: 1, max_peer_age: 0, max_offer_age: 0, cleaning_interval: 0, conn_cleaning_interval: 0, max_connection_idle: 0, access_mode, access_list: access_list.clone(), sched_strategy: 0, sched_seed: 0, entropy_seed: 0, yield_permille: 0, duration_ms, conns: vec![], faults: vec![], reloads: reloads.clone(), early: false, probe: None, drop_priv: false };
             let d = dynamic_torrents(&tmp);
             for c in conns.iter_mut() {
                 for op in c.script.iter_mut() {
@@ -806,6 +827,7 @@ impl Harness for WsSys {
             conns,
             faults,
             reloads,
+            early: !c19 && r.chance(if prop == "C11" { 300 } else { 100 }),
             probe,
             drop_priv: r.chance(300),
         }
